@@ -1,0 +1,56 @@
+//go:build verif
+
+package eviction
+
+// VerifEntryLRU is a read-only copy of an LRU heap entry for the verification harness.
+type VerifEntryLRU struct {
+	Key      string
+	UnixTime int64
+	Nil      bool
+}
+
+// VerifEntryLFU is a read-only copy of an LFU heap entry for the verification harness.
+type VerifEntryLFU struct {
+	Key       string
+	Count     int
+	AddedTime int64
+	Nil       bool
+}
+
+// VerifEntries returns a copy of the heap entries (in heap order) and of the key index.
+func (cache *CacheLRU) VerifEntries() ([]VerifEntryLRU, []string) {
+	cache.Mutex.Lock()
+	defer cache.Mutex.Unlock()
+	res := make([]VerifEntryLRU, 0, len(cache.entries))
+	for _, e := range cache.entries {
+		if e == nil {
+			res = append(res, VerifEntryLRU{Nil: true})
+			continue
+		}
+		res = append(res, VerifEntryLRU{Key: e.key, UnixTime: e.unixTime})
+	}
+	keys := make([]string, 0, len(cache.keys))
+	for k := range cache.keys {
+		keys = append(keys, k)
+	}
+	return res, keys
+}
+
+// VerifEntries returns a copy of the heap entries (in heap order) and of the key index.
+func (cache *CacheLFU) VerifEntries() ([]VerifEntryLFU, []string) {
+	cache.Mutex.Lock()
+	defer cache.Mutex.Unlock()
+	res := make([]VerifEntryLFU, 0, len(cache.entries))
+	for _, e := range cache.entries {
+		if e == nil {
+			res = append(res, VerifEntryLFU{Nil: true})
+			continue
+		}
+		res = append(res, VerifEntryLFU{Key: e.key, Count: e.count, AddedTime: e.addedTime})
+	}
+	keys := make([]string, 0, len(cache.keys))
+	for k := range cache.keys {
+		keys = append(keys, k)
+	}
+	return res, keys
+}
